@@ -127,12 +127,12 @@ func discoverBWS(c *Ctx, bws *types.Named) (r bwsRoles, ok bool) {
 		if f.Exported() {
 			continue
 		}
-		cands = append(cands, cand{f.Name(), bws, f.Name(), f.Type()})
+		cands = append(cands, cand{FN(f), bws, FN(f), f.Type()})
 		if n, isN := types.Unalias(f.Type()).(*types.Named); isN && n.Obj().Pkg() != nil && n.Obj().Pkg().Path() == CorePath {
 			if inner, isSt := n.Underlying().(*types.Struct); isSt {
 				for j := 0; j < inner.NumFields(); j++ {
 					g := inner.Field(j)
-					cands = append(cands, cand{f.Name() + "." + g.Name(), n, g.Name(), g.Type()})
+					cands = append(cands, cand{FN(f) + "." + FN(g), n, FN(g), g.Type()})
 				}
 			}
 		}
@@ -1016,7 +1016,7 @@ func c12Write(c *Ctx, rule string, roles bwsRoles, write *ssa.Function) {
 			return "", false
 		}
 		x, y, op := norm(st.Desc(bo.X)), norm(st.Desc(bo.Y)), bo.Op
-		lenP, avail, buf := "len("+p.Name()+")", "Available("+wD+")", "Buffered("+wD+")"
+		lenP, avail, buf := "len("+PN(p)+")", "Available("+wD+")", "Buffered("+wD+")"
 		if x == avail && y == lenP || x == "0" && y == buf {
 			x, y, op = y, x, swapOp(op)
 		}
